@@ -114,10 +114,26 @@ func init() {
 				case 3:
 					t = []Op{{K: "writefile", P: n, D: d1}, {K: "remove", P: n}, {K: "writefile", P: n, D: d2}, {K: "chmod", P: n, M: 0o600}, {K: "rename", P: n, Q: m}, {K: "create", P: n, H: 61}, {K: "h.close", H: 61}}
 				}
-				at := 0
-				if len(ops) > 0 {
-					at = r.IntN(len(ops) + 1)
+				// spliced in at a position where no read stream of the history is open (a write call
+				// while a positioned stream is open is open finding KF6, not C07's subject)
+				var spots []int
+				streams := 0
+				for i := 0; i <= len(ops); i++ {
+					if streams == 0 {
+						spots = append(spots, i)
+					}
+					if i < len(ops) {
+						switch ops[i].K {
+						case "open":
+							streams++
+						case "h.close":
+							if streams > 0 {
+								streams--
+							}
+						}
+					}
 				}
+				at := spots[r.IntN(len(spots))]
 				ops = append(append(append([]Op{}, ops[:at]...), t...), ops[at:]...)
 			}
 			c.Ops, c.S["style"] = ops, u.Style
